@@ -121,7 +121,7 @@ fn shard(seed: u64, shard: u64, tier: Tier) -> Tally {
             }
         }
         // random subsets of 3..6
-        for _ in 0..tier.n(1500, 12_000) {
+        for _ in 0..tier.n(1500, 100_000) {
             let mut r = Rng::keyed(seed, "C13", "subset", shard, i);
             let k = 3 + r.usize_below(4);
             let mut idx: Vec<usize> = (0..n).collect();
